@@ -342,3 +342,299 @@ func slotPanicValue(p any) (int64, bool) {
 	}
 	return -1, false
 }
+
+// ---------------------------------------------------------------------------
+// Sequences: several calls through ONE interceptor instance (or one package, for
+// fx).  The controller forces a complete order of events
+//   ["start", i]  start call i
+//   ["H", i]      one step of call i's work
+//   ["D", i]      cancel call i's caller context
+//   ["T", i]      wait for call i's own (short) deadline to fire
+// The work of a call that timed out stays parked and returns / panics later, while
+// other calls are in flight.
+
+type SlotSeqCall struct {
+	Steps    []string `json:"steps"`
+	Bail     [2]int64 `json:"bail"`
+	Fin      []any    `json:"fin"`
+	ParentNs *int64   `json:"parent_ns"` // caller's deadline, offset from the call's start
+}
+
+type SlotSeqCase struct {
+	ID    int           `json:"id"`
+	Kind  string        `json:"kind"`
+	DurNs int64         `json:"dur_ns"`
+	Calls []SlotSeqCall `json:"calls"`
+	Order [][]any       `json:"order"`
+	Procs int           `json:"procs"` // > 0: GOMAXPROCS for this case (1: per-P caches are shared)
+}
+
+type SlotSeqCallOut struct {
+	Ret      bool  `json:"ret"`
+	Panicked bool  `json:"panicked"`
+	PVal     int64 `json:"pval"`
+	Stack    bool  `json:"stack"`
+	R        int64 `json:"r"`
+	E        int64 `json:"e"`
+	HasDl    bool  `json:"has_dl"`
+	DlSeenNs int64 `json:"dl_seen_ns"`
+	T1Ns     int64 `json:"t1_ns"`
+}
+
+type SlotSeqOut struct {
+	ID     int              `json:"id"`
+	Sched  [][]any          `json:"sched"`
+	HObs   [][]any          `json:"hobs"`
+	Calls  []SlotSeqCallOut `json:"calls"`
+	RetAtD int              `json:"ret_at_d"`
+	Stuck  int              `json:"stuck"`
+	Err    string           `json:"err,omitempty"`
+}
+
+type slotSeqInvoke func(i int, parent context.Context, work func(ctx context.Context) (int64, int64)) (r, e int64)
+
+type slotSeqCall struct {
+	in       SlotSeqCall
+	gate     chan struct{}
+	acks     chan slotAck
+	sRet     chan struct{}
+	hStarted chan struct{}
+	sPanic   any
+	r, e     int64
+	parent   context.Context
+	cancel   context.CancelFunc
+	cancelDl context.CancelFunc
+	tA, t1   time.Time
+	dlSeen   time.Time
+	hasDl    bool
+	started  bool
+	hEnded   bool
+	sSeen    bool
+	dKind    string
+}
+
+func runSlotSeq(c SlotSeqCase, invoke slotSeqInvoke) (out SlotSeqOut) {
+	out = SlotSeqOut{ID: c.ID, RetAtD: -1, Stuck: -1, Sched: [][]any{}, HObs: [][]any{}}
+	if c.Procs > 0 {
+		defer runtime.GOMAXPROCS(runtime.GOMAXPROCS(c.Procs))
+	}
+	calls := make([]*slotSeqCall, len(c.Calls))
+	for i, in := range c.Calls {
+		calls[i] = &slotSeqCall{in: in, gate: make(chan struct{}), acks: make(chan slotAck, len(in.Steps)+4),
+			sRet: make(chan struct{}), hStarted: make(chan struct{}), cancel: func() {}, cancelDl: func() {}}
+	}
+	defer func() {
+		for _, q := range calls {
+			q.cancel()
+			q.cancelDl()
+		}
+	}()
+	emit := func(i int, e string) { out.Sched = append(out.Sched, []any{i, e}) }
+	returned := func(q *slotSeqCall, wait time.Duration) bool {
+		if wait == 0 {
+			select {
+			case <-q.sRet:
+				return true
+			default:
+				return false
+			}
+		}
+		select {
+		case <-q.sRet:
+			return true
+		case <-time.After(wait):
+			return false
+		}
+	}
+	// the Done event of a call is reported once; a timer that fired before the
+	// controller got to its "T" event is reported where its effect was first seen
+	emitD := func(i int, q *slotSeqCall, kind string) {
+		if q.dKind == "" {
+			q.dKind = kind
+			emit(i, kind)
+		}
+	}
+	emitS := func(i int, q *slotSeqCall) {
+		q.sSeen = true
+		timerKind := "Dc"
+		if q.in.ParentNs != nil {
+			timerKind = "Dd"
+		}
+		switch {
+		case q.sPanic != nil:
+			emit(i, "Sp")
+		case !q.hEnded:
+			emitD(i, q, timerKind)
+			emit(i, "St")
+		case q.r == 0 && (q.e == -1 || q.e == -2) && (q.dKind != "" || q.in.ParentNs != nil):
+			emitD(i, q, timerKind)
+			emit(i, "St")
+		default:
+			emit(i, "Sd")
+		}
+	}
+	// calls that returned although nothing was done to them (a signal that was not theirs)
+	sweep := func() {
+		for j, q := range calls {
+			if q.started && !q.sSeen && returned(q, 0) {
+				emitS(j, q)
+			}
+		}
+	}
+	start := func(i int, q *slotSeqCall) bool {
+		q.tA = time.Now()
+		parent := context.Background()
+		if q.in.ParentNs != nil {
+			parent, q.cancelDl = context.WithDeadline(parent, q.tA.Add(time.Duration(*q.in.ParentNs)))
+		}
+		q.parent, q.cancel = context.WithCancel(parent)
+		work := func(ctx context.Context) (int64, int64) {
+			q.t1 = time.Now()
+			q.dlSeen, q.hasDl = ctx.Deadline()
+			close(q.hStarted)
+			for _, st := range q.in.Steps {
+				<-q.gate
+				if st == "chk" {
+					select {
+					case <-ctx.Done():
+						q.acks <- slotAck{obs: []any{"ctx", true}, ctxd: true, ended: true}
+						return q.in.Bail[0], q.in.Bail[1]
+					default:
+						q.acks <- slotAck{obs: []any{"ctx", false}}
+					}
+				} else {
+					q.acks <- slotAck{obs: []any{"none"}}
+				}
+			}
+			<-q.gate
+			if q.in.Fin[0].(string) == "panic" {
+				p := slotNum(q.in.Fin[1])
+				q.acks <- slotAck{obs: []any{"panic", "user", p}, ended: true}
+				panic(slotPanic(p))
+			}
+			q.acks <- slotAck{obs: []any{"none"}, ended: true}
+			return slotNum(q.in.Fin[1]), slotNum(q.in.Fin[2])
+		}
+		go func() {
+			defer func() {
+				q.sPanic = recover()
+				close(q.sRet)
+			}()
+			q.r, q.e = invoke(i, q.parent, work)
+		}()
+		q.started = true
+		select {
+		case <-q.hStarted:
+			return true
+		case <-time.After(5 * time.Second):
+			return false
+		}
+	}
+	stepH := func(i int, q *slotSeqCall) bool {
+		select {
+		case q.gate <- struct{}{}:
+		case <-time.After(5 * time.Second):
+			return false
+		}
+		var a slotAck
+		select {
+		case a = <-q.acks:
+		case <-time.After(5 * time.Second):
+			return false
+		}
+		if a.ctxd {
+			if q.in.ParentNs != nil {
+				emitD(i, q, "Dd")
+			} else {
+				emitD(i, q, "Dc")
+			}
+		}
+		emit(i, "H")
+		out.HObs = append(out.HObs, append([]any{i}, a.obs...))
+		q.hEnded = a.ended
+		if !q.sSeen {
+			w := time.Duration(0)
+			if q.hEnded {
+				w = slotWait
+			}
+			if returned(q, w) {
+				emitS(i, q)
+			}
+		}
+		if q.hEnded {
+			// the work's completion signal is on its way: give a stray one time to arrive
+			time.Sleep(200 * time.Microsecond)
+		}
+		return true
+	}
+	waitD := func(i int, q *slotSeqCall) {
+		if q.started && !q.sSeen {
+			if returned(q, slotWait) {
+				if !q.hEnded {
+					out.RetAtD = 1
+				}
+				emitS(i, q)
+			} else {
+				out.RetAtD = 0
+			}
+		}
+	}
+
+loop:
+	for _, ev := range c.Order {
+		i := int(slotNum(ev[1]))
+		q := calls[i]
+		switch ev[0].(string) {
+		case "start":
+			if !q.started && !start(i, q) {
+				out.Stuck = i
+				break loop
+			}
+		case "H":
+			if q.started && !q.hEnded && !stepH(i, q) {
+				out.Stuck = i
+				break loop
+			}
+		case "D":
+			q.cancel()
+			emitD(i, q, "Dc")
+			waitD(i, q)
+		case "T":
+			emitD(i, q, "Dd")
+			waitD(i, q)
+		}
+		sweep()
+	}
+	for i, q := range calls {
+		for out.Stuck < 0 && q.started && !q.hEnded {
+			if !stepH(i, q) {
+				out.Stuck = i
+			}
+			sweep()
+		}
+	}
+	for i, q := range calls {
+		if q.started && !q.sSeen && returned(q, slotWait) {
+			emitS(i, q)
+		}
+	}
+	for _, q := range calls {
+		o := SlotSeqCallOut{}
+		if q.started && returned(q, 0) {
+			o.Ret = true
+			if q.sPanic != nil {
+				o.Panicked = true
+				o.PVal, o.Stack = slotPanicValue(q.sPanic)
+			} else {
+				o.R, o.E = q.r, q.e
+			}
+		}
+		o.HasDl = q.hasDl
+		if q.hasDl {
+			o.DlSeenNs = int64(q.dlSeen.Sub(q.tA))
+		}
+		o.T1Ns = int64(q.t1.Sub(q.tA))
+		out.Calls = append(out.Calls, o)
+	}
+	return out
+}
